@@ -311,4 +311,5 @@ func c10(p *model.Prog, r *report.Result) {
 	r.Check(okE, "C10.R5", fkey(wpFn, "end", "#EXT-X-ENDLIST"), p.Pos(wpFn.Pos()), "end marker written on the isLast edge before the file is replaced", "the live playlist is not finalised with #EXT-X-ENDLIST when the stream ends")
 	_ = fCreate
 	c10r6(p, r)
+	c10r7(p, r)
 }
